@@ -50,29 +50,32 @@ pub fn slp_opts(skip: bool, hash: bool) -> slippi::de::Opts {
 pub fn read_slp(b: &[u8], skip: bool, hash: bool) -> Result<Game, Fail> {
 	use crate::env::{EnvReader, PrefixedReader, Sched};
 	let opts = slp_opts(skip, hash);
+	let _guard = crate::util::prepass("prepass_read_slp", b, &crate::util::P { skip, hash, ..Default::default() });
 	let plain = std::env::var("VERIF_PLAIN_READS").is_ok();
 	let hv = crate::util::xx(b);
 	let variant = if plain { 0 } else { hv % 8 };
+	// "no options" is the same request as "all options off": half of those reads pass None
+	let o: Option<&slippi::de::Opts> = if !skip && !hash && !plain && (hv >> 30) & 1 == 1 { None } else { Some(&opts) };
 	if !plain {
 		history_prelude(b, hv, skip, hash);
 	}
 	let r = match variant {
-		2 => catch(|| slippi::read(EnvReader::new(b, Sched::Chunk(1)), Some(&opts))),
-		3 => catch(|| slippi::read(EnvReader::new(b, Sched::Chunk(7)), Some(&opts))),
-		4 => catch(|| slippi::read(EnvReader::new(b, Sched::Chunk(4096)), Some(&opts))),
-		5 => catch(|| slippi::read(PrefixedReader::new(b, 4099), Some(&opts))),
+		2 => catch(|| slippi::read(EnvReader::new(b, Sched::Chunk(1)), o)),
+		3 => catch(|| slippi::read(EnvReader::new(b, Sched::Chunk(7)), o)),
+		4 => catch(|| slippi::read(EnvReader::new(b, Sched::Chunk(4096)), o)),
+		5 => catch(|| slippi::read(PrefixedReader::new(b, 4099), o)),
 		// one read call is interrupted (EINTR) and has to be repeated by the caller
 		6 | 7 => {
 			let call = ((hv >> 8) % if variant == 6 { 8 } else { 64 }) as usize;
-			let r = catch(|| slippi::read(EnvReader::new(b, Sched::FailAt(call, std::io::ErrorKind::Interrupted)), Some(&opts)));
+			let r = catch(|| slippi::read(EnvReader::new(b, Sched::FailAt(call, std::io::ErrorKind::Interrupted)), o));
 			match r {
 				// giving up on an interrupted call is an error, not a wrong answer: ask again without it
 				// (whatever the error says - an implementation may wrap it)
-				Ok(Err(_)) => catch(|| slippi::read(Cursor::new(b), Some(&opts))),
+				Ok(Err(_)) => catch(|| slippi::read(Cursor::new(b), o)),
 				r => r,
 			}
 		}
-		_ => catch(|| slippi::read(Cursor::new(b), Some(&opts))),
+		_ => catch(|| slippi::read(Cursor::new(b), o)),
 	};
 	match r {
 		Ok(Ok(g)) => Ok(g),
@@ -124,7 +127,9 @@ pub fn read_slp_default(b: &[u8]) -> Result<Game, Fail> {
 
 pub fn read_slp_from<R: std::io::Read + std::io::Seek>(r: R, skip: bool, hash: bool) -> Result<Game, Fail> {
 	let opts = slp_opts(skip, hash);
-	match catch(|| slippi::read(r, Some(&opts))) {
+	// with every option off, the call is made without options (the same request; `read_slp` makes both)
+	let o = if !skip && !hash { None } else { Some(&opts) };
+	match catch(|| slippi::read(r, o)) {
 		Ok(Ok(g)) => Ok(g),
 		Ok(Err(e)) => Err(Fail::Err(e.to_string())),
 		Err(p) => Err(Fail::Panic(p)),
@@ -185,13 +190,16 @@ pub fn write_slpp(g: Game, comp: u8) -> Result<Vec<u8>, Fail> {
 	let opts = ppi::ser::Opts { compression: comp_of(comp) };
 	let variant = write_variant(&g);
 	match catch(move || {
+		// no compression asked for: for half of those writes no options at all (whatever the default is,
+		// everything said about an archive must hold for it)
+		let o = if comp == 0 && variant & 1 == 1 { None } else { Some(&opts) };
 		if variant == 3 {
 			let mut w = ChunkWriter { out: Vec::new(), max: 509 };
-			ppi::write(&mut w, g, Some(&opts)).map_err(|e| e.to_string())?;
+			ppi::write(&mut w, g, o).map_err(|e| e.to_string())?;
 			Ok(w.out)
 		} else {
 			let mut out = Vec::new();
-			ppi::write(&mut out, g, Some(&opts)).map(|_| out).map_err(|e| e.to_string())
+			ppi::write(&mut out, g, o).map(|_| out).map_err(|e| e.to_string())
 		}
 	}) {
 		Ok(Ok(v)) => Ok(v),
@@ -213,13 +221,17 @@ pub fn write_slpp_default(g: Game) -> Result<Vec<u8>, Fail> {
 
 pub fn read_slpp(b: &[u8], skip: bool) -> Result<Game, Fail> {
 	use crate::env::{EnvReader, Sched};
+	let _guard = crate::util::prepass("prepass_read_slpp", b, &crate::util::P { skip, ..Default::default() });
 	let opts = ppi::de::Opts { skip_frames: skip };
-	let variant = if std::env::var("VERIF_PLAIN_READS").is_ok() { 0 } else { crate::util::xx(b) % 5 };
+	let plain = std::env::var("VERIF_PLAIN_READS").is_ok();
+	let variant = if plain { 0 } else { crate::util::xx(b) % 5 };
+	// "no options" is the same request as "all options off": half of those reads pass None
+	let o: Option<&ppi::de::Opts> = if !skip && !plain && (crate::util::xx(b) >> 30) & 1 == 1 { None } else { Some(&opts) };
 	let r = match variant {
-		2 => catch(|| ppi::read(EnvReader::new(b, Sched::Chunk(3)), Some(&opts))),
-		3 => catch(|| ppi::read(EnvReader::new(b, Sched::Chunk(511)), Some(&opts))),
-		4 => catch(|| ppi::read(EnvReader::new(b, Sched::Chunk(1)), Some(&opts))),
-		_ => catch(|| ppi::read(Cursor::new(b), Some(&opts))),
+		2 => catch(|| ppi::read(EnvReader::new(b, Sched::Chunk(3)), o)),
+		3 => catch(|| ppi::read(EnvReader::new(b, Sched::Chunk(511)), o)),
+		4 => catch(|| ppi::read(EnvReader::new(b, Sched::Chunk(1)), o)),
+		_ => catch(|| ppi::read(Cursor::new(b), o)),
 	};
 	match r {
 		Ok(Ok(g)) => Ok(g),
@@ -385,3 +397,25 @@ pub fn start_eq(a: &peppi::game::Start, b: &peppi::game::Start, with_bytes: bool
 	}
 	Ok(())
 }
+
+// ------------------------------------------------------------------ oracles for pre-pass artefacts
+
+/// what a pre-pass read does, as an oracle (so that a hang verdict from there can be replayed): a
+/// panic is a violation, a hang is caught by the watchdog around the replay
+pub fn o_prepass_read_slp(input: &[u8], p: &crate::util::P) -> crate::util::Out {
+	let mut out = crate::util::Out { nontrivial: true, ..Default::default() };
+	if let Err(Fail::Panic(pn)) = read_slp(input, p.skip, p.hash) {
+		out.viol = crate::common::viol("prepass_read_slp", p, &pn.key(), format!("panic: {}", pn.msg));
+	}
+	out
+}
+
+pub fn o_prepass_read_slpp(input: &[u8], p: &crate::util::P) -> crate::util::Out {
+	let mut out = crate::util::Out { nontrivial: true, ..Default::default() };
+	if let Err(Fail::Panic(pn)) = read_slpp(input, p.skip) {
+		out.viol = crate::common::viol("prepass_read_slpp", p, &pn.key(), format!("panic: {}", pn.msg));
+	}
+	out
+}
+
+pub const ORACLES: &[(&str, crate::util::Oracle)] = &[("prepass_read_slp", o_prepass_read_slp), ("prepass_read_slpp", o_prepass_read_slpp)];
